@@ -13,11 +13,16 @@ H = 1e-6   # documented step of the numerical derivative fallback
 CUSTOM_TEXT = {
     'mix': ('mix(r, A, rho)', 'A*exp(-r/rho) - inner(r, 3.0)'),
     'inner': ('inner(r, C)', 'C/r^6 + as.morse(r, 1.8, 2.0, 0.1)'),
+    'qq': ('qq(r, qi, qj)', '14.4*qi*qj/r + 50.0*exp(-r/0.3)'),
 }
 
 
 def _c_inner(r, C):
     return C / r.ipow(6) + F.morse(r, 1.8, 2.0, 0.1)
+
+
+def _c_qq(r, qi, qj):
+    return 14.4 * qi * qj / r + 50.0 * jexp(-r / 0.3)
 
 
 def _c_mix(r, A, rho):
@@ -35,7 +40,7 @@ _env = None
 def env():
     global _env
     if _env is None:
-        _env = X.Env(custom={'mix': _c_mix, 'inner': _c_inner, 'py_plain': _py_f, 'py_deriv': _py_f, 'py_both': _py_f},
+        _env = X.Env(custom={'mix': _c_mix, 'inner': _c_inner, 'qq': _c_qq, 'py_intfirst': _py_g, 'py_plain': _py_f, 'py_deriv': _py_f, 'py_both': _py_f},
                      tables={k: X.RefTable(*v) for k, v in TABLE_DATA.items()})
     return _env
 
@@ -82,6 +87,11 @@ def library():
         ('custom', D({"custom": "mix", "params": [700.0, 0.4]}), {'numeric'}),
         ('custom_in_sum', D(mod('sum', {"custom": "inner", "params": [12.0]}, form('bornmayer', 850.0, 0.35))), {'numeric'}),
         ('table', D({"table": "tf"}), set()),
+        # hash(-1) == hash(-2) in CPython: parameter lists that differ only by -1 <-> -2 (formal charges of F and O) catch caches keyed by hash
+        ('qq_m1', D({"custom": "qq", "params": [2, -1]}), {'numeric'}),
+        ('qq_m2', D({"custom": "qq", "params": [2, -2]}), {'numeric'}),
+        ('coul_m1', D(form('coul', 2, -1)), {'api'}),
+        ('coul_m2', D(form('coul', 2, -2)), {'api'}),
     ]
     return L
 
@@ -109,6 +119,16 @@ def _py_f(r):          # reference (Jet) for all three python-only callables
     return 4.0 * jexp(-1.3 * r) + 0.05 * r * r - 0.7 / r
 
 
+PY_RC = 0.4371      # plateau radius of py_intfirst (not on any decimal grid)
+
+
+def _py_g(r):
+    r = r if isinstance(r, Jet) else Jet.var(r)
+    if r.v < PY_RC:
+        return Jet(3.0)
+    return 3.0 * jexp(-2.0 * (r - PY_RC))
+
+
 def py_callables():
     """name -> (factory returning a fresh callable for the API, reference Jet function, numeric?)"""
     def plain():
@@ -131,7 +151,16 @@ def py_callables():
             return 6.76 * math.exp(-1.3 * r) + 0.1 - 1.4 / (r * r * r)
         f.deriv2 = deriv2
         return f
-    return {'py_plain': (plain, _py_f, True), 'py_deriv': (with_deriv, _py_f, False), 'py_both': (with_both, _py_f, False)}
+    def intfirst():
+        # returns a Python int on the plateau (first grid points) and floats further out
+        def g(r):
+            return 3 if r < PY_RC else 3.0 * math.exp(-2.0 * (r - PY_RC))
+        return g
+    return {'py_plain': (plain, _py_f, True), 'py_deriv': (with_deriv, _py_f, False), 'py_both': (with_both, _py_f, False),
+            'py_intfirst': (intfirst, _py_g, True)}
+
+
+PY_BREAKPOINTS = {'py_intfirst': [PY_RC]}
 
 
 # ------------------------------------------------------------------------------------------ numeric-derivative allowance
